@@ -30,24 +30,76 @@ MANIFEST = {
 }
 
 MAXNS = (1, 2, 1000)
-# alphabet-size variants (first alphabet, second alphabet); sizes decide the code dtype
-# a third component "F" makes the score matrix Fortran-ordered (what SubstitutionMatrix.transpose()
-# and matrices built from arr.T are): memory layout is a realisation detail, not an input
-REPS = [("u8", "u8"), ("u16", "u8"), ("u8", "u16"), ("u16", "u16"), ("u32", "u8"), ("u8", "u32"),
-        ("u8p", "u8p"), ("u8", "u8", "F"), ("u16", "u8p", "F")]
-SIZES = {"u8": None, "u8p": 11, "u16": 300, "u32": 70000}
 FILL = 77           # score of symbol pairs that never occur: a wrong table lookup becomes visible
 
+# ---------------------------------------------------------------------------------------------
+# How the caller hands the substitution matrix over (specs/C08/MatrixForms.tla).  A "combo" is
+#   z     [size kind of alphabet 1, of alphabet 2]; the size decides the dtype of the codes:
+#         "u8" = exactly the symbols in use, "k2" = two more, "u8p" = 11, "u16" = 300, "u32" = 70000
+#   form  "array" | "transposed" | "dict" | "text" (| "db": text taken from the matrix database)
+#   arr   realisation of the ndarray (dtype / memory order / strides / writability)
+#   rel   relation of the alphabets: "same" object, "equal" (another object, same symbols),
+#         "perm" (same symbols, other codes), "over" (overlapping prefixes), "disj" (disjoint)
+#   sym   kind of the real symbols: "int" | "str" | "letter" (LetterAlphabet) | "tuple"
+#   val   type of the dictionary values: "int" | "np32" | "np64"
+# None of these is an input of the property: every combo denotes the same scoring function.
+SIZES = {"u8": 0, "k2": 2, "u8p": 11, "u16": 300, "u32": 70000}
+SMALL = 16          # alphabets up to this size are recorded in full (codes, complete source)
+
+
+def _combo(z1, z2, form="array", arr="i64", rel="same", sym="int", val="int"):
+    return {"z": [z1, z2], "form": form, "arr": arr, "rel": rel, "sym": sym, "val": val}
+
+
+DEFAULT = _combo("u8", "u8")
+COMBOS = [
+    # ndarray: code widths (the former REPS) ...
+    _combo("u16", "u8"), _combo("u8", "u16"), _combo("u16", "u16"), _combo("u32", "u8"), _combo("u8", "u32"),
+    _combo("u8p", "u8p"), _combo("u8", "u8", arr="F"), _combo("u16", "u8p", arr="F"),
+    # ... dtypes, memory orders, strides, writability, alphabet relations
+    _combo("u8", "u8", arr="i32", rel="equal"), _combo("u8", "u8", arr="i16", rel="perm", sym="str"),
+    _combo("u8p", "u8", arr="i8", rel="disj", sym="letter"), _combo("u8", "u8p", arr="strided"),
+    _combo("u8", "u8", arr="rev", sym="tuple"), _combo("u16", "u16", arr="ro"), _combo("k2", "k2", arr="F", rel="equal"),
+    # the caller built the matrix for (alphabet 2, alphabet 1) and transposed it
+    _combo("u8", "u8", "transposed"), _combo("u16", "u8p", "transposed", arr="i32"), _combo("u8", "u32", "transposed"),
+    _combo("k2", "u8", "transposed", rel="disj", sym="letter"),
+    # dictionary of symbol pairings
+    _combo("u8", "u8", "dict"), _combo("u8", "u8", "dict", rel="equal", sym="str", val="np64"),
+    _combo("u8", "u8", "dict", rel="perm", sym="letter"), _combo("u8", "u8", "dict", rel="disj", sym="tuple", val="np32"),
+    _combo("k2", "k2", "dict", sym="letter"), _combo("k2", "k2", "dict", rel="equal"),
+    _combo("k2", "u8", "dict", rel="over", sym="str"), _combo("u8", "k2", "dict", rel="disj", val="np64"),
+    # text in the format of the matrix database (dict_from_str)
+    _combo("u8", "u8", "text", sym="letter"), _combo("u8", "u8", "text", rel="equal", sym="str"),
+    _combo("u8", "u8", "text", rel="perm", sym="letter"), _combo("u8", "u8", "text", rel="disj", sym="str"),
+    _combo("k2", "k2", "text", sym="str"), _combo("k2", "u8", "text", rel="over", sym="letter"),
+]
+ARR_KINDS = ("i64", "i32", "i16", "i8", "F", "strided", "rev", "ro")
+DB_MAXABS = 40      # Dom_DbScores: database files whose scores stay within -40..40
+
 _ALPH = {}
+_DB = {}
 
 
 # --------------------------------------------------------------------------- real side
-def _alphabet(size):
+def _sym(kind, i):
+    """real symbol of the abstract symbol id i"""
+    if kind == "int":
+        return int(i)
+    if kind == "str":
+        return f"s{i}"
+    if kind in ("letter", "str1"):
+        return chr(i)
+    return (int(i), "t")
+
+
+def _alphabet(kind, ids, tag=""):
     import biotite.sequence as seq
 
-    if size not in _ALPH:
-        _ALPH[size] = seq.Alphabet(list(range(size)))
-    return _ALPH[size]
+    key = (kind, tag, "range", len(ids)) if isinstance(ids, range) else (kind, tag, tuple(ids))
+    if key not in _ALPH:
+        syms = [_sym(kind, i) for i in ids]
+        _ALPH[key] = seq.LetterAlphabet(syms) if kind == "letter" else seq.Alphabet(syms)
+    return _ALPH[key]
 
 
 def _embed(c, size, k):
@@ -57,60 +109,212 @@ def _embed(c, size, k):
     return size - 1 - c * ((size - 1) // k)
 
 
-def build(inp, rep):
-    """abstract input -> (seq1, seq2, SubstitutionMatrix)"""
+def _sizes(combo, k1, k2):
+    z = []
+    for kind, k in zip(combo["z"], (k1, k2)):
+        z.append(SIZES[kind] if SIZES[kind] > 2 else k + SIZES[kind])
+    return z
+
+
+def _ids(combo, z1, z2):
+    """abstract symbol ids of both alphabets and the effective relation"""
+    rel = combo["rel"]
+    if max(z1, z2) > SMALL:
+        return range(z1), range(z2), ("same" if z1 == z2 else "over")
+    if rel in ("same", "equal") and z1 != z2:
+        rel = "over"
+    a1 = [65 + i for i in range(z1)]
+    if rel == "perm":
+        a2 = [65 + z2 - 1 - j for j in range(z2)]
+    elif rel == "disj":
+        a2 = [97 + j for j in range(z2)]
+    else:
+        a2 = [65 + j for j in range(z2)]
+    return a1, a2, rel
+
+
+def _realise_array(mat, kind):
+    import numpy as np
+
+    if kind in ("i32", "i16", "i8"):
+        return mat.astype({"i32": np.int32, "i16": np.int16, "i8": np.int8}[kind])
+    if kind == "F":
+        return np.asfortranarray(mat)
+    if kind == "strided":       # a window of a larger array: neither C- nor F-contiguous
+        big = np.full((2 * mat.shape[0] + 1, 3 * mat.shape[1] + 2), -99, dtype=np.int64)
+        view = big[1::2, 2::3][: mat.shape[0], : mat.shape[1]]
+        view[...] = mat
+        return view
+    if kind == "rev":           # negative strides
+        return mat[::-1, ::-1].copy()[::-1, ::-1]
+    if kind == "ro":
+        m = mat.astype(np.int32)
+        m.setflags(write=False)
+        return m
+    return mat
+
+
+def _text_of(hdr, rows, rng):
+    w = rng.choice([1, 3, 5])
+    lines = []
+    if rng.random() < 0.5:
+        lines.append("# generated by the C08 driver")
+    lines.append(" " * rng.randint(0, 3) + "".join(" %*s" % (w, h) for h in hdr))
+    for k, (label, vals) in enumerate(rows):
+        if k == 1 and rng.random() < 0.3:
+            lines.append("")
+        lines.append(label + "".join(" %*d" % (w, v) for v in vals))
+    return "\n".join(lines) + ("\n" if rng.random() < 0.5 else "")
+
+
+def _db_grid(name):
+    """tokens of a database file (lines stripped, empty and # lines dropped, split at white space)"""
+    if name not in _DB:
+        with open(os.path.join(_db_dir(), name + ".mat")) as f:
+            lines = [ln.strip() for ln in f.read().split("\n")]
+        lines = [ln.split() for ln in lines if ln and ln[0] != "#"]
+        _DB[name] = (lines[0], [(ln[0], [int(x) for x in ln[1:]]) for ln in lines[1:]])
+    return _DB[name]
+
+
+def _db_dir():
+    # located without importing biotite (run() calls db_names() outside the pool)
+    import importlib.util
+
+    return os.path.join(importlib.util.find_spec("biotite").submodule_search_locations[0],
+                        "sequence", "align", "matrix_data")
+
+
+def db_names():
+    """Dom_DbScores: database files with one-character symbols and scores within -40..40"""
+    out = []
+    for name in sorted(f[:-4] for f in os.listdir(_db_dir()) if f.endswith(".mat")):
+        hdr, rows = _db_grid(name)
+        if (all(len(h) == 1 for h in hdr) and all(len(l) == 1 for l, _ in rows)
+                and all(abs(v) <= DB_MAXABS for _, vs in rows for v in vs)):
+            out.append(name)
+    return out
+
+
+def build(inp, combo, rng):
+    """abstract input + combo -> (seq1, seq2, SubstitutionMatrix or raised exception, tr)
+    tr = what trace validation sees: codes s1 / s2 and the source `src` handed to the constructor."""
     import numpy as np
     import biotite.sequence as seq
     import biotite.sequence.align as align
 
-    M = inp["M"]
-    k1, k2 = len(M), len(M[0])
-    z1 = SIZES[rep[0]] or k1
-    z2 = SIZES[rep[1]] or k2
-    a1, a2 = _alphabet(z1), _alphabet(z2)
-    mat = np.full((z1, z2), FILL, dtype=np.int64)
-    for a in range(k1):
-        for b in range(k2):
-            mat[_embed(a, z1, k1), _embed(b, z2, k2)] = M[a][b]
-    if len(rep) > 2 and rep[2] == "F":
-        mat = np.asfortranarray(mat)
-    sm = align.SubstitutionMatrix(a1, a2, mat)
-    if len(rep) > 2 and rep[2] == "F" and not sm.score_matrix().flags["F_CONTIGUOUS"]:
-        sm = align.SubstitutionMatrix(a2, a1, mat.T.copy()).transpose()
+    form = combo["form"]
+    src = {"form": form, "a1": [], "a2": [], "tab": [], "dict": [], "hdr": [], "rows": []}
+    if form == "db":
+        hdr, rows = _db_grid(combo["name"])
+        kind = combo["sym"]
+        ids1, ids2 = [ord(c) for c in combo["a1"]], [ord(c) for c in combo["a2"]]
+        a1 = _alphabet(kind, ids1)
+        a2 = a1 if combo["rel"] == "same" and ids1 == ids2 else _alphabet(kind, ids2, "copy")
+        src.update(form="text", a1=ids1, a2=ids2, hdr=[ord(h) for h in hdr],
+                   rows=[{"l": ord(l), "v": vs} for l, vs in rows])
+        c1, c2 = list(inp["s1"]), list(inp["s2"])
+        small = True
+        make = lambda: align.SubstitutionMatrix(a1, a2, combo["name"])      # noqa: E731
+    else:
+        M = inp["M"]
+        k1, k2 = len(M), len(M[0])
+        z1, z2 = _sizes(combo, k1, k2)
+        ids1, ids2, rel = _ids(combo, z1, z2)
+        small = max(z1, z2) <= SMALL
+        kind = combo["sym"] if small else "int"
+        if form in ("dict", "text") and not small:
+            raise ValueError("dictionary / text sources need small alphabets")
+        a1 = _alphabet(kind, ids1)
+        a2 = a1 if rel == "same" else _alphabet(kind, ids2, "copy" if rel == "equal" else "")
+        mat = np.full((z1, z2), FILL, dtype=np.int64)
+        for a in range(k1):
+            for b in range(k2):
+                mat[_embed(a, z1, k1), _embed(b, z2, k2)] = M[a][b]
+        c1 = [_embed(c, z1, k1) for c in inp["s1"]]
+        c2 = [_embed(c, z2, k2) for c in inp["s2"]]
+        full = mat.tolist() if small else None
+        if small:
+            src.update(a1=list(ids1), a2=list(ids2))
+        else:                   # large alphabets: the embedding stays a realisation detail
+            src.update(a1=list(range(k1)), a2=list(range(k2)))
+        if form == "array":
+            arr = _realise_array(mat, combo["arr"])
+            src["tab"] = full if small else [list(r) for r in M]
+
+            def make():
+                sm = align.SubstitutionMatrix(a1, a2, arr)
+                if combo["arr"] == "F" and not sm.score_matrix().flags["F_CONTIGUOUS"]:
+                    sm = align.SubstitutionMatrix(a2, a1, mat.T.copy()).transpose()
+                return sm
+        elif form == "transposed":
+            arr_t = _realise_array(np.ascontiguousarray(mat.T), combo["arr"])
+            src["tab"] = arr_t.tolist() if small else [[M[a][b] for a in range(k1)] for b in range(k2)]
+            make = lambda: align.SubstitutionMatrix(a2, a1, arr_t).transpose()   # noqa: E731
+        elif form == "dict":
+            conv = {"int": int, "np32": np.int32, "np64": np.int64}[combo["val"]]
+            entries = [(ids1[i], ids2[j], full[i][j]) for i in range(z1) for j in range(z2)]
+            need = {(x, y) for x, y, _ in entries}
+            extra = [(y, x, 55) for x, y, _ in entries if (y, x) not in need]     # mirrored pairings
+            extra = rng.sample(extra, min(len(extra), 3)) + [(ids1[0], 120, 56), (121, ids2[-1], 57)]
+            entries += [e for e in extra if rng.random() < 0.6]
+            rng.shuffle(entries)
+            D = {(_sym(kind, x), _sym(kind, y)): conv(v) for x, y, v in entries}
+            src["dict"] = [[x, y, v] for x, y, v in entries]
+            make = lambda: align.SubstitutionMatrix(a1, a2, D)                   # noqa: E731
+        elif form == "text":
+            p1 = list(range(z1))
+            p2 = list(range(z2))
+            if rng.random() < 0.5:
+                rng.shuffle(p1)
+                rng.shuffle(p2)
+            hdr = [ids2[j] for j in p2]
+            rows = [(ids1[i], [full[i][j] for j in p2]) for i in p1]
+            text = _text_of([str(_sym(kind, h)) for h in hdr], [(str(_sym(kind, l)), vs) for l, vs in rows], rng)
+            src.update(hdr=hdr, rows=[{"l": l, "v": vs} for l, vs in rows])
+            make = lambda: align.SubstitutionMatrix(a1, a2, align.SubstitutionMatrix.dict_from_str(text))  # noqa: E731
+        else:
+            raise ValueError(f"unknown form {form}")
     s1 = seq.GeneralSequence(a1)
-    s1.code = np.array([_embed(c, z1, k1) for c in inp["s1"]], dtype=np.int64)
+    s1.code = np.array(c1, dtype=np.int64)
     s2 = seq.GeneralSequence(a2)
-    s2.code = np.array([_embed(c, z2, k2) for c in inp["s2"]], dtype=np.int64)
-    return s1, s2, sm
+    s2.code = np.array(c2, dtype=np.int64)
+    if form != "db" and not small:       # large alphabets: trace validation sees the abstract codes
+        c1, c2 = inp["s1"], inp["s2"]
+    return s1, s2, make, {"s1": [int(c) for c in c1], "s2": [int(c) for c in c2], "src": src}
 
 
 def _gap_arg(gap):
     return int(gap[0]) if len(gap) == 1 else (int(gap[0]), int(gap[1]))
 
 
-def run_case(inp, maxns, rep, ideal=0):
+def run_case(inp, maxns, combo, ideal=0, seed=0):
     """Execute align_optimal for one abstract input and every max_number; returns the event."""
     import biotite.sequence.align as align
 
-    s1, s2, sm = build(inp, rep)
+    s1, s2, make, tr = build(inp, combo, random.Random(seed))
     gap = _gap_arg(inp["gap"])
     mode = inp["mode"]
     kw = {"gap_penalty": gap, "terminal_penalty": mode == "global", "local": mode == "local"}
-    ev = {"s1": inp["s1"], "s2": inp["s2"], "M": inp["M"], "gap": inp["gap"], "mode": mode,
+    ev = {"s1": tr["s1"], "s2": tr["s2"], "src": tr["src"], "gap": inp["gap"], "mode": mode,
           "oc": "ok", "scores": [], "traces": [], "rescore": [], "calls": [], "ideal": ideal,
-          "rep": list(rep), "exc": "", "dtypes": [str(s1.code.dtype), str(s2.code.dtype)]}
+          "inp": inp, "combo": combo, "seed": seed, "exc": "", "where": "",
+          "dtypes": [str(s1.code.dtype), str(s2.code.dtype)]}
     index = {}
     scores = set()
+    where = "construct"
     try:
+        sm = make()
+        where = "align"
         for mx in maxns:
             res = align.align_optimal(s1, s2, sm, max_number=mx, **kw)
             idx = []
             for al in res:
-                tr = [[int(a), int(b)] for a, b in al.trace.tolist()]
-                key = json.dumps(tr)
+                tr_ = [[int(a), int(b)] for a, b in al.trace.tolist()]
+                key = json.dumps(tr_)
                 if key not in index:
                     index[key] = len(ev["traces"]) + 1
-                    ev["traces"].append(tr)
+                    ev["traces"].append(tr_)
                     try:
                         v = align.score(al, sm, gap_penalty=gap, terminal_penalty=(mode != "semi"))
                         ev["rescore"].append([int(v)])
@@ -122,8 +326,8 @@ def run_case(inp, maxns, rep, ideal=0):
                 if al.sequences[0] is not s1 and list(al.sequences[0].code) != list(s1.code):
                     scores.add(-999999)      # returned alignment refers to other sequences
             ev["calls"].append({"maxn": int(mx), "idx": idx})
-    except (ValueError, TypeError, IndexError, MemoryError, OverflowError) as e:
-        ev.update(oc="Rejected", exc=type(e).__name__, scores=[], traces=[], rescore=[],
+    except (ValueError, TypeError, IndexError, KeyError, MemoryError, OverflowError) as e:
+        ev.update(oc="Rejected", exc=type(e).__name__, where=where, scores=[], traces=[], rescore=[],
                   calls=[{"maxn": int(m), "idx": []} for m in maxns])
         return ev
     ev["scores"] = sorted(scores)
@@ -134,38 +338,38 @@ def warmup():
     import biotite.sequence.align  # noqa: F401
 
     for z in (300, 70000):
-        _alphabet(z)
+        _alphabet("int", range(z))
 
 
 # --------------------------------------------------------------------------- S2 child
 def exec_inputs(item):
-    """item: {"cases": [{"inp", "opt", "ndp", "rep"}]} - cases enumerated by TLC."""
+    """item: {"cases": [{"inp", "opt", "ndp", "combo", "seed"}]} - cases enumerated by TLC."""
     from harness.tlabind.pool import progress
 
-    events, mism = [], []
+    events = []
     n_incomplete = 0
     for k, c in enumerate(item["cases"]):
         if k < item.get("skip", 0):
             continue
-        progress({"op": "align_optimal", "inp": c["inp"], "rep": c["rep"], "k": k})
-        ev = run_case(c["inp"], MAXNS, tuple(c["rep"]))
+        progress({"op": "align_optimal", "inp": c["inp"], "combo": c["combo"], "seed": c["seed"], "k": k})
+        ev = run_case(c["inp"], MAXNS, c["combo"], seed=c["seed"])
         ev["ndp"] = c["ndp"]
+        ev["opt"] = c["opt"]        # the optimum TLC computed for the enumerated input (compared in run())
         events.append(ev)
-        if ev["oc"] == "ok":
-            if ev["scores"] != [c["opt"]]:
-                mism.append({"kind": "score", "op": "align_optimal", "inp": c["inp"], "rep": c["rep"],
-                             "expected": {"opt": c["opt"]},
-                             "observed": {"scores": ev["scores"], "traces": ev["traces"][:5]}})
-            # diagnostic only: does max_number=1000 return every trace-back of the model?
-            if len(ev["calls"][-1]["idx"]) != min(c["ndp"], 1000) and c["inp"]["mode"] != "local":
-                n_incomplete += 1
-    return {"events": events, "mismatch": mism, "incomplete": n_incomplete}
+        # diagnostic only: does max_number=1000 return every trace-back of the model?
+        # (not for text sources: finding C08-text-matrix-transposed changes the scoring table)
+        if (ev["oc"] == "ok" and ev["scores"] == [c["opt"]] and c["inp"]["mode"] != "local"
+                and c["combo"]["form"] != "text" and len(ev["calls"][-1]["idx"]) != min(c["ndp"], 1000)):
+            n_incomplete += 1
+    return {"events": events, "incomplete": n_incomplete}
 
 
 # --------------------------------------------------------------------------- S3 child
 def _rand_input(rng, big):
     k1 = rng.randint(1, 5)
     k2 = rng.randint(1, 5)
+    if rng.random() < 0.4:
+        k2 = k1
     lim = 12 if big else 6
     n = rng.randint(0, lim) if rng.random() < 0.9 else 0
     m = rng.randint(0, lim) if rng.random() < 0.9 else 0
@@ -184,22 +388,64 @@ def _rand_input(rng, big):
         s2 = s2[:lim]
     else:
         s2 = [rng.randrange(k2) for _ in range(m)]
-    g = rng.random()
-    if g < 0.45:
-        gap = [rng.choice([0, -1, -1, -2, -3, -6])]
-    else:
-        gap = [rng.choice([0, -1, -2, -3, -6]), rng.choice([0, -1, -1, -2, -4])]
-    mode = rng.choice(["global", "semi", "local"])
-    return {"s1": s1, "s2": s2, "M": M, "gap": gap, "mode": mode}
+    return {"s1": s1, "s2": s2, "M": M, "gap": _rand_gap(rng), "mode": rng.choice(["global", "semi", "local"])}
+
+
+def _rand_gap(rng):
+    if rng.random() < 0.45:
+        return [rng.choice([0, -1, -1, -2, -3, -6])]
+    return [rng.choice([0, -1, -2, -3, -6]), rng.choice([0, -1, -1, -2, -4])]
+
+
+def _rand_combo(rng):
+    """any construction form under any realisation (S3)"""
+    r = rng.random()
+    rel = rng.choice(["same", "equal", "perm", "over", "disj"])
+    sym = rng.choice(["int", "str", "letter", "tuple"])
+    if r < 0.45:
+        z = rng.choice([["u8", "u8"], ["u8", "u8"], ["u16", "u8"], ["u8", "u16"], ["u16", "u16"], ["u32", "u8"],
+                        ["u8", "u32"], ["u8p", "u8p"], ["u16", "u8p"], ["k2", "u8"], ["u8", "k2"]])
+        arr = rng.choice(ARR_KINDS)
+        if "u32" in z and arr == "strided":
+            arr = "F"
+        return _combo(z[0], z[1], "array", arr=arr, rel=rel, sym=sym)
+    if r < 0.55:
+        z = rng.choice([["u8", "u8"], ["u16", "u8p"], ["u8", "u32"], ["k2", "u8"], ["u8p", "u8p"]])
+        return _combo(z[0], z[1], "transposed", arr=rng.choice(["i64", "i32", "i8", "F", "ro"]), rel=rel, sym=sym)
+    z = rng.choice([["u8", "u8"], ["u8", "u8"], ["k2", "k2"], ["k2", "u8"], ["u8", "k2"]])
+    if r < 0.8:
+        return _combo(z[0], z[1], "dict", rel=rel, sym=sym, val=rng.choice(["int", "np32", "np64"]))
+    return _combo(z[0], z[1], "text", rel=rel, sym=rng.choice(["str", "letter"]))
+
+
+def _rand_db_case(rng, names, big):
+    """SubstitutionMatrix(alphabet1, alphabet2, "NAME"): sequences over sub-alphabets of a database file"""
+    name = rng.choice(names)
+    hdr, _rows = _db_grid(name)
+    a1 = rng.sample(hdr, rng.randint(1, 5))
+    r = rng.random()
+    a2 = list(a1) if r < 0.5 else (rng.sample(a1, len(a1)) if r < 0.7 else rng.sample(hdr, rng.randint(1, 5)))
+    lim = 10 if big else 5
+    s1 = [rng.randrange(len(a1)) for _ in range(rng.randint(0, lim))]
+    s2 = [rng.randrange(len(a2)) for _ in range(rng.randint(0, lim))]
+    gap = rng.choice([[-3], [-8], [-12, -2], [-5, -5], [0], [-4, 0]])
+    combo = {"z": ["db", "db"], "form": "db", "name": name, "a1": a1, "a2": a2, "arr": "", "val": "",
+             "rel": rng.choice(["same", "equal"]), "sym": rng.choice(["letter", "str1"])}
+    return {"s1": s1, "s2": s2, "gap": gap, "mode": rng.choice(["global", "semi", "local"])}, combo
 
 
 def gen_events(item):
     from harness.tlabind.pool import progress
 
     rng = random.Random(item["seed"])
+    names = item["db"]
     events = []
     for k in range(item["count"]):
-        inp = _rand_input(rng, item["big"])
+        if names and rng.random() < 0.07:
+            inp, combo = _rand_db_case(rng, names, item["big"])
+        else:
+            inp = _rand_input(rng, item["big"])
+            combo = _rand_combo(rng)
         r = rng.random()
         maxns = [rng.choice([1, 2, 3, 5]), 1000] if r < 0.9 else [rng.choice([1, 4])]
         if r >= 0.94:       # documented refusals
@@ -207,12 +453,12 @@ def gen_events(item):
                 inp["gap"] = [1] if len(inp["gap"]) == 1 else rng.choice([[1, -1], [-1, 2]])
             else:
                 maxns = [0]
-        rep = REPS[rng.randrange(len(REPS))]
+        seed = rng.randrange(1 << 30)
         small = len(inp["s1"]) <= 3 and len(inp["s2"]) <= 3
         if k < item.get("skip", 0):
             continue
-        progress({"op": "align_optimal", "inp": inp, "rep": rep, "maxns": maxns, "k": k})
-        ev = run_case(inp, maxns, rep, ideal=1 if small else 0)
+        progress({"op": "align_optimal", "inp": inp, "combo": combo, "seed": seed, "maxns": maxns, "k": k})
+        ev = run_case(inp, maxns, combo, ideal=1 if small else 0, seed=seed)
         # keep events small: an all-ties input can return 1000 alignments
         if len(ev["traces"]) > 120:
             continue
@@ -228,25 +474,36 @@ def _is_affine_empty(inp):
 
 def classify(mm):
     """C08-affine-empty-sequence: affine penalty, not local, one sequence empty -> IndexError
-    from the table initialisation instead of the (all-gap) optimum."""
+    from the table initialisation of align_optimal instead of the (all-gap) optimum.
+    C08-text-matrix-transposed: matrix handed over as text (dict_from_str); square block: the
+    recorded call is exactly what the property demands under the block-transposed reading
+    (decided by TLC: KB_AsTransposedText); non-square block: IndexError while constructing."""
     if mm.get("kind") == "event" and mm.get("op") == "align_optimal":
         inp = mm.get("inp", {})
         obs = mm.get("observed", {})
         exp = mm.get("expected", {})
         if (_is_affine_empty(inp) and exp.get("oc") == "ok" and obs.get("oc") == "Rejected"
-                and obs.get("exc") == "IndexError"):
+                and obs.get("exc") == "IndexError" and obs.get("where") == "align"):
             return "C08-affine-empty-sequence"
+        if mm.get("src_form") == "text" and exp.get("oc") == "ok":
+            grid = mm.get("grid") or [0, 0]
+            if grid[0] == grid[1] and obs.get("oc") == "ok" and mm.get("kb_transposed_text") is True:
+                return "C08-text-matrix-transposed"
+            if (grid[0] != grid[1] and obs.get("oc") == "Rejected" and obs.get("exc") == "IndexError"
+                    and obs.get("where") == "construct"):
+                return "C08-text-matrix-transposed"
     return None
 
 
 # --------------------------------------------------------------------------- TLC side
-_KEEP = ("s1", "s2", "M", "gap", "mode", "oc", "scores", "traces", "rescore", "calls", "ideal")
+_KEEP = ("s1", "s2", "src", "gap", "mode", "oc", "scores", "traces", "rescore", "calls", "ideal")
 FLAGS = ("oc", "score", "ideal", "traces", "count", "distinct", "rescore")
 
 
 def validate(ctx, events, *, stage, selftest=False, workers=8, per_trace=40, timeout=1500, chunk=60000):
     """TLC validates events (specs/C08/Trace.tla), at most `chunk` events per TLC run.
-    Returns list of (event_index, flags, exp_oc, exp_score)."""
+    Returns list of (event_index, flags, exp_oc, exp_score, kb) - kb: TLC's verdict that the event
+    has exactly the shape of the known finding C08-text-matrix-transposed."""
     if len(events) > chunk:
         out = []
         for off in range(0, len(events), chunk):
@@ -269,24 +526,35 @@ def validate(ctx, events, *, stage, selftest=False, workers=8, per_trace=40, tim
     expect = sum(len(t) + 1 for t in traces)
     if res.distinct != expect:
         raise RuntimeError(f"C08 {stage}: trace validation visited {res.distinct} states, expected {expect}")
+    if T.printed_values(res.out, "BADEVENT"):
+        raise RuntimeError(f"C08 {stage}: the driver recorded an event outside Dom_Event: "
+                           f"{T.printed_values(res.out, 'BADEVENT')[:3]}")
     out = []
     for txt in T.printed_values(res.out, "MISMATCH"):
         v = to_py(parse_value(txt))
-        _tag, tid, l, flags, eoc, esc = v
-        out.append(((tid - 1) * per_trace + (l - 1), flags, eoc, esc))
+        _tag, tid, l, flags, eoc, esc, kb = v
+        out.append(((tid - 1) * per_trace + (l - 1), flags, eoc, esc, kb))
     return out
 
 
-def _event_mismatch(ev, flags, eoc, esc, stage):
+def _event_mismatch(ev, flags, eoc, esc, kb, stage):
     bad = [n for n, ok in zip(FLAGS, flags) if not ok]
+    src = ev["src"]
     return {"stage": stage, "kind": "event", "op": "align_optimal",
-            "inp": {k: ev[k] for k in ("s1", "s2", "M", "gap", "mode")},
-            "rep": ev.get("rep"), "maxns": [c["maxn"] for c in ev["calls"]], "bad": bad,
+            "inp": ev["inp"], "combo": ev["combo"], "seed": ev["seed"],
+            "src_form": src["form"], "grid": [len(src["rows"]), len(src["hdr"])],
+            "kb_transposed_text": bool(kb),
+            "maxns": [c["maxn"] for c in ev["calls"]], "bad": bad,
             "expected": {"oc": eoc, "score": esc},
-            "observed": {"oc": ev["oc"], "exc": ev.get("exc", ""), "scores": ev["scores"],
+            "observed": {"oc": ev["oc"], "exc": ev.get("exc", ""), "where": ev.get("where", ""),
+                         "scores": ev["scores"],
                          "traces": ev["traces"][:8], "rescore": ev["rescore"][:8],
                          "counts": [len(c["idx"]) for c in ev["calls"]]},
             "ideal": ev.get("ideal", 0)}
+
+
+def _asymmetric(M):
+    return M is not None and len(M) == len(M[0]) and any(M[a][b] != M[b][a] for a in range(len(M)) for b in range(a))
 
 
 _RE_STATE = re.compile(
@@ -384,10 +652,13 @@ def run(ctx):
     ctx.cov["s1_inputs"] = len(cases)
     ctx.cov["s1_situations"] = {k: (sorted(v) if isinstance(v, set) else v) for k, v in seen.items()}
     # ---- S2 ----------------------------------------------------------------------------
+    # every enumerated input is executed under one construction form / realisation: a third under
+    # the plain one, the others rotate through COMBOS (the assignment depends on VERIF_SEED only)
     order = list(range(len(cases)))
     ctx.rng.shuffle(order)
     for pos, ci in enumerate(order):
-        cases[ci]["rep"] = list(REPS[pos % len(REPS)] if pos % 3 else REPS[0])
+        cases[ci]["combo"] = COMBOS[(pos - pos // 3 - 1) % len(COMBOS)] if pos % 3 else DEFAULT
+        cases[ci]["seed"] = ctx.rng.randrange(1 << 30)
     per = 150
     items = [{"cases": [cases[ci] for ci in order[i:i + per]]} for i in range(0, len(order), per)]
     results = _run_pool(ctx, "harness.drivers.c08:exec_inputs", items, "S2")
@@ -399,8 +670,25 @@ def run(ctx):
             incomplete += r.get("incomplete", 0)
     ctx.log(f"S2: {len(events)} inputs executed ({sum(len(e['calls']) for e in events)} calls)")
     mms = validate(ctx, events, stage="S2", workers=12)
-    for ix, flags, eoc, esc in mms:
-        ctx.mismatch(_event_mismatch(events[ix], flags, eoc, esc, "S2"))
+    flagged = {}
+    for ix, flags, eoc, esc, kb in mms:
+        flagged[ix] = flags
+        ctx.mismatch(_event_mismatch(events[ix], flags, eoc, esc, kb, "S2"))
+    # the optimum TLC computed for the enumerated input (S1) against the reported score; when TLC
+    # has already rejected the reported score of the recorded call, that record carries the verdict
+    for ix, e in enumerate(events):
+        if e["oc"] == "ok" and e["scores"] != [e["opt"]] and (ix not in flagged or flagged[ix][1]):
+            ctx.mismatch({"stage": "S2", "kind": "score", "op": "align_optimal", "inp": e["inp"],
+                          "combo": e["combo"], "seed": e["seed"], "expected": {"opt": e["opt"]},
+                          "observed": {"scores": e["scores"], "traces": e["traces"][:5]}})
+    # vacuity: every construction form met a non-symmetric matrix over identical / equal alphabets
+    forms_asym = _count(e["src"]["form"] for e in events
+                        if _asymmetric(e["inp"].get("M")) and e["src"]["a1"] == e["src"]["a2"])
+    if set(forms_asym) != {"array", "transposed", "dict", "text"}:
+        vacuity(ctx, f"S2: a construction form never met a non-symmetric matrix: {forms_asym}")
+    ctx.cov["s2_forms"] = _count(e["src"]["form"] for e in events)
+    ctx.cov["s2_forms_asymmetric_same_alphabet"] = forms_asym
+    ctx.cov["s2_combos"] = _count(_combo_name(e["combo"]) for e in events)
     if incomplete:
         ctx.note(f"S2 diagnostic (no verdict): {incomplete} end-to-end inputs where max_number=1000 did not "
                  "return exactly the model's number of optimal trace-backs")
@@ -417,19 +705,26 @@ def run(ctx):
         ctx.sample({"s2_event": {k: e[k] for k in _KEEP}})
     # ---- S3 ----------------------------------------------------------------------------
     nitems, count = (16, 60) if quick else (64, 250)
-    sitems = [{"seed": ctx.rng.randrange(1 << 30), "count": count, "big": (k % 2 == 1)} for k in range(nitems)]
+    names = db_names()
+    if len(names) < 20:
+        raise Vacuity(f"only {len(names)} database matrices within Dom_DbScores")
+    sitems = [{"seed": ctx.rng.randrange(1 << 30), "count": count, "big": (k % 2 == 1), "db": names}
+              for k in range(nitems)]
     sres = _run_pool(ctx, "harness.drivers.c08:gen_events", sitems, "S3")
     sev = []
     for r in sres:
         if r and "events" in r:
             sev += r["events"]
     mms = validate(ctx, sev, stage="S3", per_trace=25)
-    for ix, flags, eoc, esc in mms:
-        ctx.mismatch(_event_mismatch(sev[ix], flags, eoc, esc, "S3"))
+    for ix, flags, eoc, esc, kb in mms:
+        ctx.mismatch(_event_mismatch(sev[ix], flags, eoc, esc, kb, "S3"))
     ctx.traces_validated += len(sev)
     ctx.evaluations += sum(len(e["calls"]) for e in sev)
     ctx.cov["s3_events"] = len(sev)
     ctx.cov["s3_outcomes"] = _count(e["oc"] for e in sev)
+    ctx.cov["s3_forms"] = _count(e["combo"]["form"] for e in sev)
+    if set(ctx.cov["s3_forms"]) != {"array", "transposed", "dict", "text", "db"}:
+        vacuity(ctx, f"S3 missed a construction form: {ctx.cov['s3_forms']}")
     ctx.cov["s3_ideal_checked"] = sum(1 for e in sev if e["ideal"] == 1)
     ctx.cov["s3_max_len"] = max([max(len(e["s1"]), len(e["s2"])) for e in sev] or [0])
     ctx.cov["s3_alignments_validated"] = sum(len(e["traces"]) for e in sev)
@@ -461,6 +756,11 @@ def run(ctx):
     if len(hit) < len(bad):
         raise Vacuity(f"binding self-test: {len(bad)} corrupted events, only {len(hit)} rejected")
     ctx.cov["selftest_corrupted_rejected"] = len(hit)
+
+
+def _combo_name(c):
+    return "/".join([c["form"], c["z"][0], c["z"][1], c["arr"] if c["form"] in ("array", "transposed") else c["val"],
+                     c["rel"], c["sym"]])
 
 
 def _count(it):
@@ -535,10 +835,10 @@ def replay(record):
     inp = record.get("inp")
     if not inp:
         return {"error": "record has no input", "record": record}
-    rep = tuple(record.get("rep") or REPS[0])
+    combo = record.get("combo") or DEFAULT
     maxns = record.get("maxns") or list(MAXNS)
     small = len(inp["s1"]) <= 3 and len(inp["s2"]) <= 3
-    ev = run_case(inp, maxns, rep, ideal=1 if small else 0)
+    ev = run_case(inp, maxns, combo, ideal=1 if small else 0, seed=record.get("seed", 0))
     out = {"observed": {"oc": ev["oc"], "exc": ev["exc"], "scores": ev["scores"], "traces": ev["traces"][:8],
                         "counts": [len(c["idx"]) for c in ev["calls"]]},
            "expected": record.get("expected")}
